@@ -2,7 +2,11 @@
 ///! My needs were very simply so I didn't want to go all the way and
 ///! add a logging crate
 
+#[cfg(not(capy_verif))]
 pub const PRINT_DEBUG: bool = true;
+// verification hook: harness builds (--cfg capy_verif) silence debug printing
+#[cfg(capy_verif)]
+pub const PRINT_DEBUG: bool = false;
 
 #[macro_export]
 macro_rules! debug {
